@@ -830,7 +830,7 @@ class Gen:
             ts = self.r.sample(later + ["char"], min(len(later) + 1, self.r.randint(1, 3)))
             return Cho([Seq(([self.lit_nonempty()] if self.coin(0.3) else []) + [Ref(t, "@", False)]) for t in ts])
         ext = [nm for nm in later if self.kinds.get(nm) == "extern"]
-        if ext and self.coin(0.3):
+        if ext and self.coin(0.45):
             # the string is (partly) consumed by a user function: the value is still the whole consumed slice
             e = Ref(self.r.choice(ext))
             pre = [self.lit_nonempty()] if self.coin(0.5) else []
